@@ -18,13 +18,26 @@ def _replay_has(spec, ops, key, stop_on_taint=None, replayer=None, **kw):
         import shutil; shutil.rmtree(d, ignore_errors=True)
 
 
+_KNOWN = {}
+def _open(fid):
+    """is fid listed as an OPEN finding?  The rule of a finding that has been fixed is not applied any more: what it
+    would have explained must be explained by another open rule or be reported as a violation"""
+    if not _KNOWN:
+        import json, os
+        try:
+            for e in json.load(open(os.path.join(common.VERIF, 'known_findings.json')))['findings']: _KNOWN[e['id']] = e.get('status')
+        except Exception: _KNOWN['?'] = None
+    return _KNOWN.get(fid) == 'open'
+
+
 def classify(pid, report, eng, ops):
     mon, kind, det = report.monitor, report.kind, report.detail if isinstance(report.detail, dict) else {}
     key = (mon, kind)
 
     # --- seed (pk-only object) whose many-to-one reference is reassigned, then the OLD parent's collection is
     #     loaded from the database: the load puts the object back into the old parent's collection.
-    if mon in ('cachemodel', 'read', 'commit', 'reverse', 'cascade', 'index', 'identity', 'atomic'):
+    if mon in ('cachemodel', 'read', 'commit', 'reverse', 'cascade', 'index', 'identity', 'atomic') and \
+            _open(pid + '-UNLOADED-SEED-REVERSE-NOT-MAINTAINED'):
         # the session must really have reassigned a not-loaded many-to-one reference or deleted an object it did not
         # have loaded, and the TARGETED deviation replay - the same history in which exactly those objects are loaded
         # right before exactly those operations, nothing else - must not produce the report.  (Loading every handle
